@@ -11,6 +11,8 @@ What runs:
      compared with the model line by line (tools/engine.py), plus the global variables at explored nodes
      (script CONT_MAX/CHOOSE.../GETVAR through model and implementation) — this transfers the theorem about
      the model runtime to the Rust runtime.
+     The Intercept is too large for the theorem; the model runs it (both JSONs) along a deep choice path found by
+     step 5 and along the paths of the divergence classes found there, and is compared with the runtime.
   4. property-direct oracle on the implementation (harness bin inkpair): both stories in lock step along every
      choice path to a LARGER bound (quick depth 6 / 400 paths, thorough depth 10 / 6000 paths), The Intercept
      breadth-first to a path budget (implementation only: its JSON is not translated into Coq).
@@ -40,7 +42,9 @@ ASSUMPTIONS = [
     "decided by vm_compute inside Coq on the engine model (theories/Engine), which is hand-written and tied to "
     "the runtime by running the identical explorations on the implementation in this check",
     "translator: Compiler::compile itself + vlib.json2coq (JSON -> Gallina term, trusted); the compiler is not modelled",
-    "The Intercept (reference JSON > 40 KB) is explored breadth-first to a path budget on the implementation only",
+    "The Intercept (reference JSON > 40 KB) is outside the theorem: explored on the implementation (breadth-first to a "
+    "path budget, and coverage-directed until every offered choice has been taken); the engine model is run on it only "
+    "along one deep choice path (and the paths of found divergences), for both JSONs, and compared with the runtime",
     "deeper paths (depth 6 quick / 10 thorough) are explored on the implementation only (oracle, not proof)",
     "global variables holding divert targets are compared as 'is a divert target' (container paths are "
     "compiler-internal names)",
@@ -283,8 +287,32 @@ def cover_oracle(ctx, pairs, exe):
                                       coverage=round(len(taken) / total, 3) if total else None,
                                       runs=len(runs), steps=[r.get("steps") for _, _, r in runs],
                                       exhausted_novelty=[bool(r.get("exhaustive")) for _, _, r in runs],
-                                      max_depth=max((r.get("max_depth", 0) or 0) for _, _, r in runs))
+                                      max_depth=max((r.get("max_depth", 0) or 0) for _, _, r in runs),
+                                      deep_path=max((r.get("deep_path") or [] for _, _, r in runs), key=len))
     return fails, stats
+
+
+def big_tie_cases(ctx, pairs, cstats, cfails):
+    """model-vs-implementation on DEEP paths of the stories that are not translated into Gallina for the theorem
+    (The Intercept): a longest agreed path of the coverage-directed walk and the paths of its divergence classes, each
+    as an inkdrive script (CONT_MAX / CHOOSE ...) through the engine model and the runtime, for BOTH JSONs"""
+    cases = []
+    for p in pairs:
+        info = cstats["big"].get(p["name"])
+        if info is None or p["ours_text"] is None:
+            continue
+        paths = [("deep", info.get("deep_path") or [])]
+        mine = [f for f in cfails if f["pair"] == p["name"] and f.get("path") is not None]
+        for f in mine[:(1 if ctx.quick() else 4)]:
+            paths.append((f["cls"], f["path"][:60]))
+        for tag, path in paths:
+            script = [["CONT_MAX"]]
+            for c in path:
+                script += [["CHOOSE", c], ["CONT_MAX"]]
+            for kind, text in (("ref", p["ref_text"]), ("ours", p["ours_text"])):
+                cases.append({"id": "%s:%s@%s" % (kind, p["name"], tag), "story": text, "seed": 42, "fuel": 2000000,
+                              "script": script})
+    return cases
 
 
 def tie_cases(pairs):
@@ -366,12 +394,27 @@ def run(ctx):
     tc = tie_cases(pairs)
     mism, agree, skipped = [], 0, 0
     by_id = {p["name"]: p for p in pairs}
-    res = engine.compare(tc, exe=exe, sw=sw, shard=max(4, len(tc) // vlib.NPROC + 1))
-    gc = globals_cases(ctx, [r for r in res if r["status"] == "agree"], by_id)
-    if ctx.quick():
-        gc = gc[::2]
-    res2 = engine.compare(gc, exe=exe, sw=sw, shard=max(8, len(gc) // vlib.NPROC + 1)) if gc else []
-    for r in res + res2:
+    from concurrent.futures import ThreadPoolExecutor
+    bigc = big_tie_cases(ctx, pairs, cstats, cfails)
+    with ThreadPoolExecutor(max_workers=1) as bigex:      # the big stories take ~1 min each in the model: alongside the rest
+        bigfut = bigex.submit(engine.compare, bigc, exe=exe, sw=sw, shard=1) if bigc else None
+        res = engine.compare(tc, exe=exe, sw=sw, shard=max(4, len(tc) // vlib.NPROC + 1))
+        gc = globals_cases(ctx, [r for r in res if r["status"] == "agree"], by_id)
+        if ctx.quick():
+            gc = gc[::2]
+        res2 = engine.compare(gc, exe=exe, sw=sw, shard=max(8, len(gc) // vlib.NPROC + 1)) if gc else []
+        res3 = bigfut.result() if bigfut else []
+    # the model, run on both JSONs along a diverging path, must show the divergence too (then it is the compiled
+    # story that differs, not the runtime)
+    model_on_divergences = []
+    by3 = {r["id"]: r for r in res3}
+    for r in res3:
+        kind, _, rest = r["id"].partition(":")
+        if kind == "ref" and not rest.endswith("@deep") and "ours:" + rest in by3:
+            a, b = r.get("model_lines"), by3["ours:" + rest].get("model_lines")
+            model_on_divergences.append(dict(case=rest, model_transcripts_differ=(a != b) if a and b else None,
+                                             model_agrees_with_impl=[r["status"], by3["ours:" + rest]["status"]]))
+    for r in res + res2 + res3:
         if r["status"] == "agree":
             agree += 1
         elif r["status"].startswith("skipped"):
@@ -380,7 +423,7 @@ def run(ctx):
             mism.append(dict(id=r["id"], status=r["status"], first_diff=r.get("first_diff"), error=r.get("error", "")[-600:]))
 
     ctx.coverage.update(dict(
-        evaluations=ostats["paths"] * 2 + cstats["steps"] * 2 + len(tc) + len(gc),
+        evaluations=ostats["paths"] * 2 + cstats["steps"] * 2 + len(tc) + len(gc) + len(bigc),
         distinct_nontrivial=ostats["pairs"],
         rule="all %d (source, reference JSON) pairs; theorem: depth<=%d, <=%d nodes per story, seed 42, shared "
              "constant RNG stream; implementation oracle: depth<=%s, <=%s paths per pair (DFS), The Intercept BFS; "
@@ -390,7 +433,8 @@ def run(ctx):
              % (len(pairs), DEPTH, BUDGET, 6 if ctx.quick() else 10, 400 if ctx.quick() else 6000,
                 cstats["runs"], cstats["steps"], cstats["exhaustive_pairs"]),
         samples=[dict(pair=pairs[0]["name"]), dict(pair=pairs[len(pairs) // 2]["name"]), dict(oracle=ostats)],
-        oracle=ostats, cover_oracle=cstats, traces_validated_against_impl=agree, correspondence_mismatches=len(mism),
+        oracle=ostats, cover_oracle=cstats, big_story_model_cases=[c["id"] for c in bigc],
+        model_on_divergences=model_on_divergences, traces_validated_against_impl=agree, correspondence_mismatches=len(mism),
         correspondence_skipped=skipped, proof_seconds=round(t_proof, 1)))
 
     new = [f for f in fails if f["pair"] not in known] + [f for f in cfails if f["pair"] not in known]
